@@ -36,9 +36,9 @@ check("C04", "model_checking",
       "DESIGN.md §3 C04")
 
 check("C08", "model_checking",
-      "exhaustive create/drop/finish/callback history enumeration of the real manager against a counting model, per resource kind and capacity; stale-id scenarios",
+      "exhaustive create/drop/finish/callback history enumeration of the real manager against a counting model, per resource kind and capacity; stale-id scenarios; preemption-bounded DFS over real thread interleavings of the create path with the audio thread's remove-and-add step at atomic-operation granularity",
       "All histories of length <= 7 (9 thorough) over {create, drop oldest handle, drop newest handle, finish oldest sound, callback} for 12 resource kinds (probe / static / fallible sounds on main and sub tracks, sub-tracks, nested sub-tracks, send tracks, clocks, tweeners, LFOs, listeners, spatial tracks) x capacity {0,1,2} are executed on the real AudioManager in lock-step with a pending/adopted/marked counting model: creation succeeds exactly when the model count is below capacity (else the documented error, no panic), num_*() equals the model count after every step, removal at the next callback (the one after when not yet adopted), no allocation/free or probe Drop inside a callback; five stale-id scenarios reuse a slot and check that old ClockId / ModulatorId / ListenerId / SendTrackId / track do not resolve to the newcomer.",
-      "sequential histories only in this part; the interleavings of the create path with the audio thread's remove-and-add step are E2's (added when the scheduler exists); listener count is only observable through creation success (no num_listeners()).",
+      "E2 part: game(create; create) || audio(2 callbacks, the first removing a resource) for sounds, clocks and sub-tracks at capacity 1 and 2, preemption bound 2 (3 thorough), switching before every atomic operation of rtrb / atomic-arena and at kira's res.* sync points, followed by a sequential epilogue that checks no panic, empty count after everything is finished and full slot reuse for three rounds; listener count is only observable through creation success (no num_listeners()).",
       "DESIGN.md §3 C08")
 
 check("C05", "model_checking",
